@@ -186,6 +186,16 @@ impl<'a> StagesBuilder<'a> {
 
         let new_time = system.running_time();
 
+        // A dependency that is listed twice, or that a barrier already orders
+        // before this system, must not keep the following stages from being used:
+        // `remove_ids` crosses off one occurrence per id and is only applied to the
+        // stages behind the barrier.
+        dep.sort_unstable();
+        dep.dedup();
+        for stage in 0..self.barrier {
+            self.remove_ids(stage, &mut dep);
+        }
+
         let target = self.insertion_target(&reads, &writes, &mut dep, new_time);
 
         let (stage, group) = match target {
